@@ -353,7 +353,17 @@ theorem single_frame_table :
     (Gen.isSingleFrameSystemMessage ++ Gen.isDefaultSingleFrameMessage).all (fun p => Spec.singleFramePGNs.contains p) = true ∧
     Spec.singleFramePGNs.all (fun p => (Gen.isSingleFrameSystemMessage ++ Gen.isDefaultSingleFrameMessage).contains p) = true := by
   constructor <;> decide +kernel
-theorem proprietary_eq (pgn : Nat) : Gen.isProprietaryFastPacketMessage pgn = Spec.isProprietaryFastPacket pgn := rfl
+/-- the proprietary fast-packet ranges read from the source (by executing `IsProprietaryFastPacketMessage` on all 2^18 PGNs)
+are the published ones: 126720 and 130816..131071 -/
+theorem proprietary_ranges : Gen.proprietaryFastPacketRanges = [(126720, 126720), (130816, 131071)] := by decide
+
+theorem proprietary_eq (pgn : Nat) : Gen.isProprietaryFastPacketMessage pgn = Spec.isProprietaryFastPacket pgn := by
+  unfold Gen.isProprietaryFastPacketMessage Spec.isProprietaryFastPacket
+  rw [proprietary_ranges]
+  simp only [List.any_cons, List.any_nil, Bool.or_false]
+  rw [Bool.eq_iff_iff]
+  simp only [Bool.or_eq_true, Bool.and_eq_true, decide_eq_true_eq, beq_iff_eq]
+  omega
 
 /-- **C01_classification.** For every PGN (all of them, not a sample): without application lists the
 library classifies a PGN as fast packet exactly when the NMEA 2000 classification does; with an
